@@ -91,6 +91,25 @@ class OutUnpicklable:
         self.item, self.handle = item, threading.Lock()
 
 
+class BoomPlugin(Exception):
+    """An exception class only the worker can import (plug-in code loaded there): it survives a pickle round trip INSIDE the worker and
+    fails to be rebuilt in the parent process."""
+
+    def __init__(self, tag):
+        super().__init__(f"boom:{tag}:")
+        self.tag = tag
+
+    def __reduce__(self):
+        return (_rebuild_plugin_error, (self.tag,))
+
+
+def _rebuild_plugin_error(tag):
+    s = cur_sim()
+    if s is not None and s.current is not None and s.current.pid == 1000:
+        raise ModuleNotFoundError("No module named 'my_plugin'")
+    return BoomPlugin(tag)
+
+
 class BoomLock(Exception):
     """An exception that cannot be pickled at all (it carries a lock / handle)."""
 
@@ -111,7 +130,7 @@ class BoomHuge(Exception):
         return (BoomHuge, (self.tag,))
 
 
-BOOMS = {"Unloadable": BoomTwoArgs, "Unpicklable": BoomLock, "Huge": BoomHuge, "Exception": Boom, "ValueError": BoomValue, "AssertionError": BoomAssert, "EOFError": BoomEOF, "TypeError": BoomType,
+BOOMS = {"Plugin": BoomPlugin, "Unloadable": BoomTwoArgs, "Unpicklable": BoomLock, "Huge": BoomHuge, "Exception": Boom, "ValueError": BoomValue, "AssertionError": BoomAssert, "EOFError": BoomEOF, "TypeError": BoomType,
          "BrokenPipeError": BoomPipe, "StopIteration": BoomStop}
 
 
@@ -325,7 +344,7 @@ class C08:
             "consumer": consumer, "items_as": weighted(rng, [("list", 3), ("iter", 1)]),
             # the type of the error the user's filter raises (an assert in user code is an AssertionError ...)
             "exc": weighted(rng, [("Exception", 4), ("ValueError", 2), ("AssertionError", 2), ("EOFError", 1), ("TypeError", 1), ("BrokenPipeError", 1),
-                                  ("StopIteration", 0 if coba_mp else 1.5), ("Unloadable", 1.5), ("Unpicklable", 1.5), ("Huge", 1.5)]),
+                                  ("StopIteration", 0 if coba_mp else 1.5), ("Unloadable", 1.5), ("Unpicklable", 1.5), ("Huge", 1.5), ("Plugin", 1.5)]),
             "knobs": {"feeder_delay": rng.random() < 0.5, "pipe_cap": weighted(rng, [(None, 4), (1, 1), (3, 1)]),
                       "p_stay": weighted(rng, [(0.0, 2), (0.5, 2), (0.9, 1)]),
                       "slow_main": rng.random() < 0.25, "log_lines": coba_mp and rng.random() < 0.7,
@@ -479,7 +498,8 @@ class C08:
             if "close_exc" in obs:
                 return vio("close_raised", f"closing the output early raised {obs['close_exc']!r}")
             if exc is not None and not (isinstance(exc, tuple(BOOMS.values())) and exc.tag in cfg["fail"]) \
-                    and not (cfg.get("exc") in ("Unloadable", "Unpicklable") and any(f"boom:{t}:" in str(exc) for t in cfg["fail"])) \
+                    and not (cfg.get("exc") in ("Unloadable", "Unpicklable", "Plugin") and any(f"boom:{t}:" in str(exc) for t in cfg["fail"])) \
+                    and not (cfg.get("exc") == "Plugin" and "background process failed" in str(exc)) \
                     and not (cfg.get("exc") == "StopIteration" and isinstance(exc, RuntimeError)):
                 return vio("unexpected_exception", f"abandoning raised {exc!r}")
             return None
@@ -496,8 +516,10 @@ class C08:
                                               f"with {len(got)} outputs", key=f"error_swallowed:{cfg.get('exc', 'Exception')}")
             if cfg.get("exc") == "StopIteration" and isinstance(exc, RuntimeError) and "StopIteration" in str(exc):
                 return None       # Python itself reports a StopIteration that escapes into a generator as this RuntimeError
-            if cfg.get("exc") in ("Unloadable", "Unpicklable") and any(f"boom:{t}:" in str(exc) for t in cfg["fail"]):
+            if cfg.get("exc") in ("Unloadable", "Unpicklable", "Plugin") and any(f"boom:{t}:" in str(exc) for t in cfg["fail"]):
                 return None       # an error that cannot travel between processes may arrive as a stand-in that carries its text
+            if cfg.get("exc") == "Plugin" and "background process failed" in str(exc):
+                return None       # ... and one whose class the parent cannot even import as a stand-in that says so
             if not (isinstance(exc, BOOMS[cfg.get("exc", "Exception")]) and exc.tag in cfg["fail"]):
                 return vio("wrong_exception", f"expected {cfg.get('exc', 'Exception')} for one of {cfg['fail']}, got {exc!r}")
             return None
